@@ -10,6 +10,8 @@ V = os.path.dirname(os.path.dirname(os.path.abspath(__file__)))
 import glob
 checks = {os.path.basename(os.path.dirname(p)).upper(): json.load(open(p)) for p in glob.glob(os.path.join(V, "checks", "c*", "check.json"))}
 meta = json.load(open(os.path.join(V, "checks", "manifest_meta.json")))
+ready = set(open(os.path.join(V, "checks", "ready.txt")).read().split())
+checks = {k: v for k, v in checks.items() if k in ready}
 props = [json.loads(l) for l in open(os.path.join(V, "properties.jsonl")) if l.strip()]
 
 baseline = json.load(open("/root/.vp/BASELINE.json"))["cmd"] if os.path.exists("/root/.vp/BASELINE.json") else meta["baseline_off_cmd"]
